@@ -108,7 +108,7 @@ mut("c13-min-length-27", ["C13"], ("cvss/parser.py", "{26,}", "{27,}"))
 mut("c13-only-3-0", ["C13"], ("cvss/parser.py", r"(?:CVSS:3\.\d/)?", r"(?:CVSS:3\.0/)?"))
 mut("c13-cvss2-errors-escape", ["C13"], ("cvss/parser.py", "        except (CVSSError, KeyError):", "        except (CVSS3Error, KeyError):"),
     ("cvss/parser.py", "from .exceptions import CVSSError", "from .exceptions import CVSSError, CVSS3Error"))
-mut("c13-list-not-set", ["C13"], ("cvss/parser.py", "    cvsss = set()", "    cvsss = []"), ("cvss/parser.py", "            cvsss.add(cvss)", "            cvsss.append(cvss)"))
+mut("c13-list-not-set", ["C13"], ("cvss/parser.py", "            if cvss not in seen:", "            if True:"))
 mut("c13-digit-glue", ["C13"], ("cvss/parser.py", "[A-Za-z:/]{26,}", "[A-Za-z0-9:/]{26,}"), note="a digit delimiter now glues to the vector")
 # ---------------------------------------------------------------- C14
 mut("c14-lookup-bump", ["C14", "C02"], ("cvss/constants4.py", '("002221", 2.7),', '("002221", 5.6),'))
@@ -161,7 +161,7 @@ mut("c19-ambient-rounding-v3", ["C19"], ("cvss/cvss3.py", "        self.esc = (\
     note="unary plus rounds to the context precision: harmless at prec>=28, i.e. an EQUIVALENT mutant on the property's domain (the product has at most 11 significant digits, so rounding to >= 28 digits is the identity); survives the quick tier as expected")
 mut("c19-hash-order-leak", ["C19"], ("cvss/cvss_calculator.py", "sort=True, minimal=True", "sort=False, minimal=True"), tier="none",
     note="py3 dicts are ordered: not observable; kept as documentation of an equivalent mutant")
-mut("c19-warnings-filter", ["C19"], ("cvss/parser.py", "    cvsss = set()", "    import warnings\n\n    warnings.simplefilter(\"ignore\")\n    cvsss = set()"))
+mut("c19-warnings-filter", ["C19"], ("cvss/parser.py", "    cvsss = []", "    import warnings\n\n    warnings.simplefilter(\"ignore\")\n    cvsss = []"))
 # ---------------------------------------------------------------- C20
 mut("c20-fstring", ["C20"], ("cvss/cvss2.py", "'Unknown metric \"{0}\" in field \"{1}\"'.format(metric, field)", "f'Unknown metric \"{metric}\" in field \"{field}\"'"))
 mut("c20-print-function-import", ["C20"], ("cvss/interactive.py", "from __future__ import print_function, unicode_literals", "from __future__ import unicode_literals"))
@@ -183,3 +183,6 @@ if __name__ == "__main__":
     if sys.argv[1:] == ["list"]:
         for m in M:
             print(m["name"], ",".join(m["props"]), m["tier"])
+mut("c19-result-order-from-a-set", ["C19"], ("cvss/parser.py", "    return cvsss", "    return list(set(cvsss))"),
+    note="the order of the returned list follows the hash seed again (the defect repaired by 10b19ef)")
+
